@@ -8,6 +8,7 @@ CONSTANTS
   GapFix = FALSE
   CertRounds = {1, 2}
   Direct = TRUE
+  MidCrash = TRUE
   Timeouts = TRUE
 INVARIANT ContainerOK
 INVARIANT StorageShape
